@@ -1951,6 +1951,10 @@ type ProjCase struct {
 	PathForm int `json:"path_form,omitempty"`
 	// NotImports: texts inside Java files that name a declared group without being an import (comments, string literals)
 	NotImports []string `json:"not_imports,omitempty"`
+	// Past (cli sub-check, eighth seed batch): the working directory is the directory above the project and has a past:
+	// `coca analysis -p .` was run there over the project AND a second code base next to it whose classes import every
+	// declared group; coca_reporter/ holds its model when `deps -p <project>` starts. The report is about the project alone.
+	Past bool `json:"past,omitempty"`
 }
 
 type importSpec struct {
@@ -2539,6 +2543,7 @@ func genProject(t *rapid.T) ProjCase {
 	if rapid.IntRange(0, 3).Draw(t, "directorySpelling") == 3 {
 		c.PathForm = rapid.IntRange(1, 2).Draw(t, "directorySpellingForm")
 	}
+	c.Past = rapid.IntRange(0, 3).Draw(t, "workingDirectoryWithAPast") == 3
 	for f := range feats {
 		c.Features = append(c.Features, f)
 	}
@@ -2876,6 +2881,47 @@ func checkCLI(c ProjCase) pbt.Verdict {
 	}
 	dir := cli.Scratch("c19cli")
 	defer os.RemoveAll(dir)
+	if c.Past {
+		// parent/{proj, elsewhere}: analysis of both, then the deps command for proj from the parent
+		parent := dir
+		dir = filepath.Join(parent, "proj")
+		cli.WriteTree(dir, c.Files)
+		var sb strings.Builder
+		sb.WriteString("package elsewhere;\n\n")
+		k := 0
+		for _, m := range c.Manifests {
+			for _, d := range m.Entries {
+				k++
+				fmt.Fprintf(&sb, "import %s.Used%d;\n", d.Group, k)
+			}
+		}
+		sb.WriteString("\npublic class Other {\n}\n")
+		cli.WriteTree(parent, map[string]string{"elsewhere/src/main/java/elsewhere/Other.java": sb.String()})
+		pre, err := cli.Run("coca", parent, nil, "analysis", "-p", ".")
+		if err != nil {
+			panic("c19: cannot run coca: " + err.Error())
+		}
+		if pre.ExitCode != 0 || pre.TimedOut {
+			return pbt.Fail("`coca analysis -p .` in the directory above the project failed (exit %d)\n%s", pre.ExitCode, tail(pre.Stderr, 800))
+		}
+		res, err := cli.Run("coca_dep", parent, nil, "deps", "-p", "proj")
+		if err != nil {
+			panic("c19: cannot run coca_dep: " + err.Error())
+		}
+		if res.TimedOut || res.ExitCode != 0 || strings.Contains(res.Stderr, "panic:") {
+			return pbt.Fail("the deps command failed after an analysis in the same working directory (exit %d)\nstderr: %s\n%s", res.ExitCode, tail(res.Stderr, 1500), renderProject(c))
+		}
+		got, why := parseTable(res.Stdout)
+		if why != "" {
+			return pbt.Fail("the deps command printed no unused table after an analysis in the same working directory: %s\nstdout: %s\n%s", why, tail(res.Stdout, 800), renderProject(c))
+		}
+		if msg := judgeUnused(c, got, "table of the deps command (working directory holds the model of an earlier `coca analysis -p .` over the project and a second code base)"); msg != "" {
+			return pbt.Fail("%s\n%s", msg, renderProject(c))
+		}
+		v := projVerdict(c)
+		v.Classes = append(v.Classes, "cli_working_directory_with_a_past")
+		return v
+	}
 	cli.WriteTree(dir, c.Files)
 	base := filepath.Base(dir)
 	args := [][]string{{"deps", "-p", "."}, {"deps", "--path", "."}, {"deps"}, {"deps", "-p", dir}, {"deps", "--path=./"},
